@@ -135,10 +135,16 @@ func (p *Population) NextInnovationNumber() int64 {
 func (p *Population) StoreInnovation(innovation Innovation) {
 	p.mutex.Lock()
 	defer p.mutex.Unlock()
+	if verifOn {
+		verifEmit("access:append-registry", p)
+	}
 	p.innovations = append(p.innovations, innovation)
 }
 
 func (p *Population) Innovations() []Innovation {
+	if verifOn {
+		verifEmit("access:read-registry", p)
+	}
 	return p.innovations
 }
 
